@@ -117,6 +117,8 @@ def cases(ctx):
         vs = gen_history(r)
         alg = ['sha1', 'sha256'][(hno + ctx.shard) % 2]
         n = len(vs) - 1
+        # layout of the Index: real ones use one blank; the format allows any run of blanks/tabs
+        ilayout = [r.choice([' ', ' ', '  ', '\t', ' \t', '   ']), r.choice([' ', ' ', '  ', '\t', '     '])]
         starts = ['v%d' % i for i in range(n)] + ['current', 'foreign', 'absent']
         for start in starts:
             faults = [{'kind': 'none'}, {'kind': 'no-index'}, {'kind': 'bad-index', 'variant': r.randrange(3)},
@@ -132,7 +134,7 @@ def cases(ctx):
                 if r.random() < .4:
                     faults.append({'kind': 'missing-patch', 'j': j})
             for fault in faults:
-                yield {'kind': 'update', 'versions': vs, 'alg': alg, 'start': start, 'fault': fault}
+                yield {'kind': 'update', 'versions': vs, 'alg': alg, 'start': start, 'fault': fault, 'ilayout': ilayout}
 
 
 # ---------------------------------------------------------------------------
@@ -142,7 +144,8 @@ def _sha(text_bytes, alg):
     return getattr(hashlib, alg)(text_bytes).hexdigest()
 
 
-def publish(root, vs, alg, fault):
+def publish(root, vs, alg, fault, ilayout=(' ', ' ')):
+    indent, gap = ilayout
     os.makedirs(os.path.join(root, 'Packages.diff'))
     cur = ''.join(vs[-1]).encode('utf-8')
     with gzip.open(os.path.join(root, 'Packages.gz'), 'wb') as f:
@@ -161,8 +164,8 @@ def publish(root, vs, alg, fault):
         with gzip.open(os.path.join(root, 'Packages.diff', name + '.gz'), 'wb') as f:
             f.write(sb)
         vb = ''.join(vs[i]).encode('utf-8')
-        hist.append(' %s %d %s\n' % (_sha(vb, alg), len(vb), name))
-        pat.append(' %s %d %s\n' % (_sha(sb, alg), len(sb), name))
+        hist.append('%s%s%s%d%s%s\n' % (indent, _sha(vb, alg), gap, len(vb), gap, name))
+        pat.append('%s%s%s%d%s%s\n' % (indent, _sha(sb, alg), gap, len(sb), gap, name))
     idx = '%s-Current: %s %d\n%s-History:\n%s%s-Patches:\n%s' % (pre, _sha(cur, alg), len(cur), pre, ''.join(hist), pre, ''.join(pat))
     ipath = os.path.join(root, 'Packages.diff', 'Index')
     kind = fault['kind']
@@ -289,7 +292,7 @@ def run_case(ctx, case):
     d = ctx.tmpdir()
     try:
         root = os.path.join(d, 'mirror')
-        publish(root, case['versions'], case['alg'], fault)
+        publish(root, case['versions'], case['alg'], fault, tuple(case.get('ilayout', (' ', ' '))))
         os.makedirs(os.path.join(d, 'local'))
         os.makedirs(os.path.join(d, 'tmp'))
         if fault['kind'] == 'write-fail' and fault['k'] == 'all':
@@ -323,6 +326,7 @@ def _one(ctx, case, d, count_only=False):
     vs, alg, start, fault = case['versions'], case['alg'], case['start'], case['fault']
     kind = fault['kind']
     ctx.count('alg:' + alg)
+    ctx.count('index-indent:%r' % (case.get('ilayout', [' '])[0],))
     ctx.count('fault:' + kind)
     ctx.count('start:' + ('vi' if start.startswith('v') else start))
     if True:
